@@ -17,7 +17,7 @@ def container_events(env, rng, thorough):
     from barril.units import Array, FixedArray, FractionScalar, GetUnknownQuantity, ObtainQuantity, Scalar
 
     ev = []
-    units = [("length", "m"), ("length", "cm"), ("depth", "km"), ("time", "s"), ("temperature", "degC")]
+    units = [("length", "m"), ("length", "cm"), ("depth", "km"), ("time", "s"), ("temperature", "degC"), ("temperature", "degF"), ("temperature", "K"), ("pressure", "psig"), ("pressure", "bar")]
 
     def operands():
         c, u = rng.choice(units)
